@@ -587,6 +587,12 @@ class NF:
                 deps |= d
             return ", ".join(parts), deps
         p = self.poly(s, sc, at, depth)
+        m_ = self.meta.get(p.single_atom() or "")
+        if m_ and m_.get("fn") == "slice" and 1 <= len(m_.get("args", [])) <= 3 and not m_.get("kws"):
+            # an explicit slice object indexes exactly like the slice syntax: x[slice(a, b)] == x[a:b]
+            a_ = ["" if x.canon() == "None" else x.canon() for x in m_["args"]]
+            lo, hi, st = ("", a_[0], None) if len(a_) == 1 else (a_[0], a_[1], a_[2] if len(a_) == 3 else None)
+            return f"{lo}:{hi}" + (f":{st}" if st else ""), p.deps
         if p.elems is not None and len(p.elems) >= 2 and isinstance(s, ast.Name):
             # `idx = (s, a); table[idx]` indexes exactly like `table[s, a]`
             return ", ".join(x.canon() for x in p.elems), p.deps
@@ -652,6 +658,7 @@ class NF:
             if nm in ("Eq", "NotEq") and a.canon() > b.canon():
                 a, b = b, a
             atoms.append(f"{nm}({a.canon()}, {b.canon()})")
+            self.meta.setdefault(atoms[-1], {"deps": a.deps | b.deps, "gdeps": frozenset(), "fn": nm, "args": [a, b], "kws": {}})
         if len(atoms) == 1:
             return Poly.atom(atoms[0], deps)
         return Poly.atom("and(" + ", ".join(sorted(atoms)) + ")", deps)  # a < b <= c  ==  a < b and b <= c
@@ -775,7 +782,12 @@ class NF:
                         return r
             fp = self.poly(f, sc, at, depth)
             fname, fdeps, fg = fp.canon(), fp.deps, fp.gdeps
-        return self._mkcall(fname, args, kws, fdeps, fg)
+        out = self._mkcall(fname, args, kws, fdeps, fg)
+        if isinstance(f, ast.Attribute) and isinstance(f.value, ast.Subscript) and isinstance(f.value.value, ast.Attribute) and f.value.value.attr == "at" and out.single_atom() in self.meta:
+            # functional array update  X.at[idx].op(v): keep the parts for element-wise readings
+            idx_txt, _d = self._slice(f.value.slice, sc, at, depth)
+            self.meta[out.single_atom()]["at"] = {"base": self.poly(f.value.value.value, sc, at, depth), "index": idx_txt, "op": f.attr}
+        return out
 
     def _mkcall(self, fname, args, kws, fdeps=frozenset(), fg=frozenset(), nondiff=False):
         deps = frozenset(fdeps).union(*[a.deps for a in args], *[v.deps for v in kws.values()])
